@@ -73,6 +73,14 @@ def run(ctx):
             # corpus: minimal input of the recorded finding D14b (root rule with a repeated external node)
             shape = dict(nls=[2], terms=[[0, 0]], nts=[[0, 0]], start=0,
                          rules=[dict(lhs=0, nodes=[0], ext=[0, 0], edges=[('t', 0, [0, 0])])], weights={0: [0.0, -1.0, -2.0, -1.0]})
+        if k == 2:
+            # corpus: minimal input of the recorded finding D35 (+inf log-weight meeting a -inf one: the product is the
+            # semiring zero, but torch_semiring_einsum's log-viterbi adds them to NaN, which then wins the argmax)
+            shape = dict(nls=[2], terms=[[0], [0]], nts=[[]], start=0,
+                         rules=[dict(lhs=0, nodes=[0], ext=[], edges=[('t', 1, [0]), ('t', 0, [0])])], weights={0: [3.0, math.inf], 1: [0.0, -math.inf]})
+        elif k % 25 == 3:
+            shape['weights'] = {i: [math.inf if ctx.rng.random() < 0.15 else x for x in w] for i, w in shape['weights'].items()}
+        posneg = any(x == math.inf for w in shape['weights'].values() for x in w) and any(x == -math.inf for w in shape['weights'].values() for x in w)
         rec, lin = sccs_and_linearity(shape)
         rep = ctx.driver.ask(f'C02.iterate viterbi {gen.enc_shape(shape)} 200')
         t = Toks(rep)
@@ -124,8 +132,8 @@ def run(ctx):
             except Exception as e:  # noqa
                 w, total = repr(e), False
             root_rep = len(set(d.rule.rhs.ext)) < len(d.rule.rhs.ext)
-            meta.append((case, b, w, total, root_rep))
-    for (case, b, w, total, root_rep), rep in zip(meta, ctx.driver.ask_many(reqs)):
+            meta.append((case, b, w, total, root_rep, posneg))
+    for (case, b, w, total, root_rep, posneg), rep in zip(meta, ctx.driver.ask_many(reqs)):
         if isinstance(rep, Exception): raise rep
         if rep == 'none':
             ctx.fail('viterbi returned an ill-formed derivation (rule of the wrong nonterminal, node value outside its domain, '
@@ -133,10 +141,11 @@ def run(ctx):
             continue
         got = rep.split()[1]
         if got != str(b):
-            ctx.fail(f'the derivation returned by viterbi has log-weight {got}, the maximum is {b}', case, got, str(b), tags=['not-maximal'])
+            ctx.fail(f'the derivation returned by viterbi has log-weight {got}, the maximum is {b}', case, got, str(b),
+                     tags=['not-maximal'] + (['posinf-meets-neginf'] if posneg else []))
         ctx.evaluations += 1
         if not total or not isinstance(w, float) or w != float(b):
-            tags = ['derive-weight']
+            tags = ['derive-weight'] + (['posinf-meets-neginf'] if posneg and not (isinstance(w, float) and w == w) else [])
             if isinstance(w, float) and w == float(b) and not total and root_rep:
                 # the weight is right; only the start edge's attachment nodes of a REPEATED external node stay unassigned (D14 seen through derive())
                 tags = ['derive-not-total', 'root-repeated-ext']
